@@ -780,7 +780,10 @@ fn c09(c: &mut Checker) {
             // value comparison only when neither side fails (denied unknown keys make one side fail)
             let denied = exp.reports.iter().any(|e| matches!(e.class, simcore::model::ExpClass::UnknownKey { .. }));
             let mut out = vec![];
-            if reps != reps_s {
+            // where an unknown key IS denied the two runs legitimately part ways (the container
+            // fails, so its map / validate functions do not run): the metamorphic rule is about
+            // containers that ignore unknown keys
+            if !denied && reps != reps_s {
                 out.push(Violation {
                     rule: "X-spurious",
                     msg: format!("reports change when members that no field reads are removed: with them {reps:?}, without them {reps_s:?}"),
@@ -1061,6 +1064,8 @@ pub fn profile(prop: Prop, env: &Env) -> Profile {
         max_cb_faults: 2,
         reorder: true,
         allow_special: false,
+        broad_pm: 0,
+        never: FaultCfg::none(),
     };
     match prop {
         Prop::C01 | Prop::C12 => {
@@ -1095,11 +1100,13 @@ pub fn profile(prop: Prop, env: &Env) -> Profile {
         Prop::C06 => {
             allowed.nonfinite = true;
             allowed.collide = true;
+            allowed.dup = true;
             p.allowed = allowed;
             p.programs = pick(&|f| !f.named);
             p.rates_pm = vec![0, 0, 60, 150, 300];
         }
         Prop::C07 => {
+            p.broad_pm = 300;
             p.programs = pick(&|f| f.strukt || f.tagged || f.unit_enum);
             let mut a = FaultCfg::none();
             a.spurious = true;
@@ -1111,6 +1118,7 @@ pub fn profile(prop: Prop, env: &Env) -> Profile {
             p.max_cb_faults = 1;
         }
         Prop::C08 => {
+            p.broad_pm = 300;
             p.programs = pick(&|f| f.strukt || f.tagged);
             let mut a = FaultCfg::none();
             a.drop = true;
@@ -1123,6 +1131,7 @@ pub fn profile(prop: Prop, env: &Env) -> Profile {
             p.max_cb_faults = 1;
         }
         Prop::C09 => {
+            p.broad_pm = 300;
             p.programs = pick(&|f| f.strukt || f.tagged);
             let mut a = FaultCfg::none();
             a.spurious = true;
@@ -1137,6 +1146,7 @@ pub fn profile(prop: Prop, env: &Env) -> Profile {
             p.max_cb_faults = 0;
         }
         Prop::C10 => {
+            p.broad_pm = 300;
             p.programs = pick(&|f| f.tagged || f.unit_enum);
             let mut a = FaultCfg::none();
             a.tag = true;
@@ -1161,6 +1171,8 @@ pub fn profile(prop: Prop, env: &Env) -> Profile {
             p.max_cb_faults = 2;
         }
         Prop::C14 => {
+            p.never.dup = true;
+            p.never.nonfinite = true;
             p.rates_pm = vec![40, 100, 250];
         }
         Prop::C15 => {
